@@ -5,10 +5,10 @@ here = os.path.dirname(os.path.dirname(os.path.abspath(__file__)))
 TECH = "deterministic simulation with fault injection"
 claimed = {
  "C16": ("exploration", "local store directories produced by a simulated history (complete writes in both formats, writers killed leaving temporary files, corrupted objects, junk) are pruned against reference sets and verified (with and without repair) by n workers under the seeded scheduler; oracle: exact expected file set and exact set of reported chunk ids, classified by an independent validator",
-         "sampling; the name filter itself is a pure function of the listing (stated partial scope); S3 and SFTP prune not exercised",
+         "sampling; the name filter itself is a pure function of the listing (stated partial scope); S3 prune against an in-harness S3 endpoint and SFTP prune against a pkg/sftp server behind an ssh shim run sparsely; a share of the cases runs the real prune (1-3 indexes) and verify [-r] commands",
          TECH + " (fault-produced store states, seeded scheduler for concurrent verify, set-equality oracle)"),
  "C08": ("fault_enumeration", "part A: for ChopFile, Copy and concurrent StoreChunk into a real LocalStore a seeded schedule with every file-system call as a scheduling point is recorded, then process death is injected at every file-system point (clean and as a torn write of the file that just grew); an independent zstd+SHA validator inspects the directory, Prune must remove exactly the temporary files, restarts must complete. part B: the real desync extract binary is SIGKILLed while request k is held by a gated HTTP chunk server, for every k: without --in-place the destination is untouched, with it a re-run completes correctly and does not refetch written chunks",
-         "exhaustive over file-system points of each recorded schedule (<= 120) and over request indexes of each extract; death = freeze (equivalent to SIGKILL for file contents); torn writes at whole-file granularity; power loss out of scope",
+         "exhaustive over file-system points of each recorded schedule (<= 120), over request indexes of each extract and over the file-system system calls of each traced command (<= 50, else first/last/sampled); in the bubble death = freeze (equivalent to SIGKILL for file contents), at process level a real SIGKILL (gated server, ptrace); torn writes at whole-file granularity; power loss out of scope",
          TECH + " (crash-point enumeration with torn writes, independent store validator, real binary under a gated server)"),
  "C05": ("exploration", "random trees with hostile names and full metadata are packed and unpacked through the real Tar/UnTar, through the five-stage chunked pipeline (Tar -> pipe -> ChunkStream -> index -> UnTarIndex) under the seeded scheduler with a slow store, through GNU-tar and mtree output and (possibly truncated) tar-stream input, under both digests, in the bubble and through the real tar/untar/mtree commands; oracle: metadata+content snapshot equality, byte-identical repeated packing, chunked bytes == direct archive",
          "sampling; metadata fidelity is input coverage (stated partial scope), the simulated part is the chunked pipeline; fifos and sockets not exercised; xattrs/device numbers not compared for mtree output, xattrs/sub-second times not for GNU tar output",
@@ -20,10 +20,10 @@ claimed = {
          "only faulted valid streams are explored, not all byte strings (stated partial scope); sizes between 2^31 and 2^47 are not injected; catar inputs are the repository fixtures",
          TECH + " (stream fault enumeration with allocation accounting)"),
  "C14": ("exploration", "seeded search over the compression/verification matrix, GET/HEAD/PUT for chunks and indexes (incl. chained index servers), scripted server response sequences (reset, 5xx, short body, response past the time-out, then served/404/4xx), error-retry values and back-off bases for the real HTTP client and handlers over an in-process transport in fake time, and casync-protocol sessions over a pipe with fragmentation and mid-message cuts; oracle: data byte-identical, missing vs failed reported truthfully, transient runs below the budget invisible, attempt count and simulated back-off time exactly as documented",
-         "sampling; TLS/auth/real sockets not exercised; mismatched client/server compression settings not generated",
+         "sampling; TLS/auth not exercised; real sockets and child processes only in the process-level share (chunk-server, index-server, config+flag retry budgets, casync protocol end to end through an ssh shim and desync pull); mismatched client/server compression settings not generated",
          TECH + " (scripted transport faults in fake time, real client and server code)"),
  "C03": ("fault_enumeration", "for LocalStore, the real HTTP client/handler pair over an in-process transport and the casync protocol client/server over a pipe, under every compression/verification setting and seven wrapper stacks, the stored object of a chunk is corrupted in every enumerated way (every byte position and every truncation length for objects <= 512 bytes, replacement by other valid objects/frames/raw data/garbage, junk before/after, corrupted cache entry) and fetched through a fresh stack; extract and cat pipelines run over a poisoned store; oracle: error or data hashing to the requested ID",
-         "exhaustive over positions/lengths for small stored objects, sampled for larger; S3 and SFTP are not exercised; flips of the two zstd content-size-flag bits are skipped (they make the pinned zstd decoder allocate up to 64 GiB before rejecting the frame)",
+         "exhaustive over positions/lengths for small stored objects, sampled for larger; S3 (in-harness endpoint) and SFTP (pkg/sftp server behind an ssh shim) backends run sparsely; flips of the two zstd content-size-flag bits are skipped (they make the pinned zstd decoder allocate up to 64 GiB before rejecting the frame)",
          TECH + " (stored-object fault enumeration over real stores and wrapper stacks, simulated transports)"),
  "C17": ("fault_enumeration", "for each generated blob and worker count the intact file must verify and every enumerated fault on the stored blob (a changed byte at every position of small blobs or at positions biased to first/last/batch-boundary chunks, truncation, extension, equal-size chunk swap) must make the real VerifyIndex fail, each verification run with its n workers under the seeded scheduler",
          "exhaustive over single-byte positions for blobs <= 1500 bytes, sampled otherwise; one bit flipped per byte",
@@ -35,13 +35,13 @@ claimed = {
          "sampling; the FUSE kernel bridge is a stub (node methods are called in process)",
          TECH + " (fault-injecting store, seeded scheduler for shared handles, reference-model oracle)"),
  "C11": ("exploration", "seeded search over chain shapes, member contents, per-member fault schedules, concurrent clients and a reconfiguration task for the real StoreRouter, Cache, RepairableCache, FailoverGroup and SwapStore; per-operation trace conformance of the member calls and the result against the documented policy evaluated over the observed member outcomes",
-         "sampling; failover member choice is bounded, not predicted; de-duplication inside chains is left to C12",
+         "sampling; in the bubble the failover member choice is bounded, not predicted (at process level, with static member faults and one request at a time, it is predicted exactly, request logs included); de-duplication inside chains is left to C12",
          TECH + " (seeded scheduler, fault-scheduled member stores, per-operation policy conformance)"),
  "C06": ("exploration", "seeded search over inputs with many duplicate chunks, worker counts, interleavings and store-failure sequences (k-th HasChunk/StoreChunk/GetChunk failing or slow, up to three per run) of the real ChopFile, Copy, ChunkStream and make pipeline; oracle: success implies a complete, valid target store and a correct index, and any failure returned to desync implies an error result",
-         "sampling; failures are injected at store-call granularity; the CLI wrappers around these library calls are not executed",
+         "sampling; failures are injected at store-call granularity in the bubble and as the k-th HTTP request answered 500 for the real chop / cache / make [--print-stats] / tar -i commands",
          TECH + " (seeded scheduler, k-th-call store faults, store-content oracle)"),
  "C07": ("exploration", "for each long-running library entry point a seeded schedule is recorded and then re-run with the context cancelled before every scheduling decision (exhaustive over the cancellation points of that schedule when it has <= 150 steps, sampled otherwise); oracle: a nil result implies the work is complete, the call returns and does not panic",
-         "sampling over workloads and schedules, exhaustive over cancellation points of each short recorded schedule; CLI signal handling is represented by cancelling the root context; process-level signalling of the real binary is not part of this check",
+         "sampling over workloads and schedules, exhaustive over cancellation points of each short recorded schedule; in the bubble CLI signal handling is represented by cancelling the root context; a tenth of the cases deliver SIGINT/SIGTERM to the real binary while a gated server holds request k",
          TECH + " (seeded scheduler, cancellation-point enumeration, completeness oracle)"),
  "C01": ("exploration", "seeded search over blobs, seed sets (stale, truncated, empty, duplicate, aliasing the target), prior target contents, worker counts, invalid-seed actions, store faults, a seed mutator and worker interleavings of the real AssembleFile, with and without an emulated cloning filesystem; oracle: nil => target == blob, and termination with success where the statement demands it",
          "sampling; FICLONERANGE emulated in process; scheduling granularity = channel/lock/store ops (+ file-system calls in a third of the runs); regular files on tmpfs only",
